@@ -1,15 +1,35 @@
 """C20 — inverter objects are independent; returned values do not change afterwards (frame conditions)."""
 from .common import *
 
-SIDECARS = ["sensor", "protocol_cmd"]
+SIDECARS = ["sensor", "protocol_cmd", "modbus", "inverter"]
 
 
 def units(tier):
     import contracts.sensor as cs
-    return script_units(SIDECARS, "table_rows", "rows", ("C11", "C12", "C20"), tier, sorted(cs.sensor_tables()))
+    from . import C18
+    api = [tuple(list(u[:1]) + [SIDECARS] + list(u[2:5]) + [("C20",)] + list(u[6:])) for u in C18.units(tier)
+           if u[3] in ("readonly_call", "et_device_info", "dt_device_info")]
+    return script_units(SIDECARS, "table_rows", "rows", ("C11", "C12", "C20"), tier, sorted(cs.sensor_tables())) + api
 
 
-replay = replay_rows
+def replay(vc, unit):
+    if vc['name'].startswith('rows:'):
+        return replay_rows(vc, unit)
+    from pyvc import units
+    from pyvc.native import dec
+    w = vc.get("witness") or {}
+    if "family" not in w or "method" not in w:
+        return None
+    task = {"op": "func", "module": "contracts.inverter_native", "func": "replay_shared",
+            "kwargs": {"family": w["family"], "method": w["method"], "args": w.get("args", []),
+                       "script": w.get("script", []), "variant": w.get("variant", 0)}}
+    out = units.native_batch([task], oneshot=True)[0]       # a fresh process: class-level state must be pristine
+    rec = {"kind": "script", "native_task": task, "native_result": out}
+    if not out["ok"]:
+        return None, rec
+    res = dec(out["result"])
+    rec["native_result"] = res
+    return bool(res.get("violates")), rec
 INFO = {
     "trusted_base": [TB["T1"], TB["T2"], TB["T3"]],
     "assumptions": [],
